@@ -1,5 +1,5 @@
 # replay of a bounded stand-in violation (C13): re-run native/c13_tdm.py
 import sys
-print("calls ('lock', 'lock', 'space1'): the program no longer runs: IndexError: list index out of range")
+print('delays=[2], leading identity bins per loop=[3]: cropped samples have shape (1, 1, 10), expected (1, 1, 8)')
 print('REPLAY-VIOLATION')
 sys.exit(1)
